@@ -134,6 +134,12 @@ theorem candidate_ok_iff_noeval (f : Flags) (want got : Str) :
 theorem no_want_never_fails (f : Flags) (iw : Bool) (unm : List Str) (out : Str) (ev : EvalResult) :
     decideExec f iw none unm (.ok out ev) = .ran out .append := rfl
 
+/-- ★ a want that is there but ignored (IGNORE_WANT on) is never compared — whatever the output — and it still ENDS the window of
+    "output since the previous want": the unmatched output is cleared, exactly as after a compared want (round-6 seed C02-6A treated
+    such a part like one without a want, so that a later want could be satisfied by output from before the ignored one) -/
+theorem ignored_want_closes_window (f : Flags) (want : Str) (unm : List Str) (out : Str) (ev : EvalResult) :
+    decideExec f true (some want) unm (.ok out ev) = .ran out .clear := rfl
+
 /-- ★ with a want (and IGNORE_WANT off) the part fails with a got/want error exactly when the
     check over the trailing outputs says "differs"; otherwise the loop goes on and the unmatched
     output is cleared -/
